@@ -121,7 +121,7 @@ fn c03_index_fraction_split() {
 const RATES: [f32; 13] = [100.0, 500.0, 999.0, 1_000.0, 8_000.0, 44_100.0, 48_000.0, 96_000.0, 192_000.0,
     22_050.0, 32_000.0, 88_200.0, 176_400.0];
 
-// @family prop=C02 name=c02_increment_accuracy macro=c02_increment_accuracy n=13 quick=0,1,3,6,8 thorough=all timeout=1500
+// @family prop=C02 name=c02_increment_accuracy macro=c02_increment_accuracy n=13 quick=0,1,3,5,6,8 thorough=all timeout=1500
 // @about slice = sample rate {100, 500, 999, 1000, 8000, 44100, 48000, 96000, 192000, 22050, 32000, 88200, 176400 Hz}; envelope time T on the grid k/1024 s, k = 2..=20480 (1.95 ms .. 20 s) or one of the bounds 0.001 / 0.0015 / 20 s: after set_period(T) the increment satisfies inc >= 1 and 2^24/(T*fs)*(1-2^-21) - 1 <= inc <= 2^24/(T*fs)*(1+2^-21) (decided without division: inc*(T*fs) against 2^24, exact in f64) -- so a phase of N = T*fs ticks ends on tick ceil(2^24/inc): never earlier than N (up to f32 rounding of 1/T/fs) and at most N/(1-N/2^24)+2 ticks; no overflow in tick() with that increment
 macro_rules! c02_increment_accuracy {
     ($name:ident, $k:expr) => {
@@ -153,7 +153,7 @@ macro_rules! c02_increment_accuracy {
     };
 }
 
-// @family prop=C11 name=c11_frequency_accuracy macro=c11_frequency_accuracy n=13 quick=0,3,6,8 thorough=all timeout=1500
+// @family prop=C11 name=c11_frequency_accuracy macro=c11_frequency_accuracy n=13 quick=0,3,5,6,8 thorough=all timeout=1500
 // @about slice = sample rate as above; LFO frequency f on two 16-bit grids (k/64 Hz for k < 2^16 capped at fs, and fs*k/2^16 computed in f32, k <= 2^16, which includes f = 0 and f = fs): after set_frequency(f) the per-tick phase advance inc/2^24 lies in [f/fs*(1-2^-23) - 2^-24, f/fs*(1+2^-23)] (decided as inc*fs against 2^24*f, exact in f64): too much by at most f32 rounding, too little by at most that plus one counter step; inc <= 2^24 so tick() cannot overflow
 macro_rules! c11_frequency_accuracy {
     ($name:ident, $k:expr) => {
